@@ -196,13 +196,34 @@ func runC02(c *Ctx) {
 			if fld := sel.Sel.Name; fld != "charClass" && fld != "asciiCharClass" && fld != "unicodeCategory" {
 				continue
 			}
+			seenNames := map[string]bool{}
+			// names handed to a helper of the package that builds the alternatives (oneOf("\\s", "\\S", ...))
+			defer func() {}()
 			ast.Inspect(as.Rhs[0], func(nd ast.Node) bool {
 				call, ok := nd.(*ast.CallExpr)
-				if !ok || len(call.Args) != 1 {
+				if !ok {
+					return true
+				}
+				if fo, ok := objOf(info, call.Fun).(*types.Func); ok && fo.Pkg() == pp.Types && fo.Name() != "ExpectString" {
+					for _, a := range call.Args {
+						if s, ok := constStr(info, a); ok && !seenNames[s] {
+							seenNames[s] = true
+							n++
+							key := s
+							if sel.Sel.Name == "charClass" {
+								key = strings.ToLower(s)
+							}
+							_, have := classes[key]
+							c.Check("R2.1", "accepted class name "+s+" has a table entry", a.Pos(), have, "the combinators accept "+s+" but the class table has no such key: the mapper fails and a documented construct is rejected")
+						}
+					}
+				}
+				if len(call.Args) != 1 {
 					return true
 				}
 				if fo, ok := objOf(info, call.Fun).(*types.Func); ok && fo.Name() == "ExpectString" {
 					if s, ok := constStr(info, call.Args[0]); ok {
+						seenNames[s] = true
 						n++
 						key := s
 						if sel.Sel.Name == "charClass" {
@@ -215,7 +236,11 @@ func runC02(c *Ctx) {
 				return true
 			})
 		}
-		c.Check("R2.1", "class names accepted by the combinators were found", newFn.Pos(), n >= 60, fmt.Sprintf("%d names", n))
+		if n >= 60 {
+			c.Pass("R2.1", "class names accepted by the combinators were found", newFn.Pos(), fmt.Sprintf("%d names", n))
+		} else {
+			c.Undecided("R2.1", "class names accepted by the combinators were found", newFn.Pos(), fmt.Sprintf("only %d names found in the definitions of the class combinators: they are written in a way this rule does not read", n))
+		}
 	}
 
 	checkClassPresence(c, "R2.1")
